@@ -95,7 +95,8 @@ drift per search step is at least the tolerance, `‖d‖ ≥ tol`; a slower dri
 criterion at the first step and is reported as a steady state although it never stops moving. -/
 theorem C15_accumulation_fails_iff (d y0 : List Rat) (tol : Rat) (hlen : d.length = y0.length) (ht : 0 < tol) :
     ssRun Gen.copies Gen.checks (fun y => List.zipWith (· + ·) y d) (fun _ => true) (smallAbs tol) Gen.maxSteps y0
-      = .noSteadyState ↔ tol * tol ≤ normSq d := by
+      = .noSteadyState ↔ accAbsFails tol d = true := by
+  simp only [accAbsFails, decide_eq_true_eq]
   constructor
   · intro h
     have h0 := ((C15_no_false_success _ _ _ y0).mp h 0 (by decide)).2
@@ -110,8 +111,8 @@ tolerance at the LAST comparison of the budget, `tol·(y0 + (max_steps − 1)·d
 absolute-norm theorem `C15_accumulation_fails` does not need. -/
 theorem C15_rel_accumulation_fails_iff (d y0 tol : Rat) (hd : 0 < d) (hy : 0 < y0) (ht : 0 < tol) :
     ssRun Gen.copies Gen.checks (fun y => List.zipWith (· + ·) y [d]) (fun _ => true) (smallRel tol) Gen.maxSteps [y0]
-        = .noSteadyState ↔
-      tol * (y0 + ((Gen.maxSteps - 1 : Nat) : Rat) * d) ≤ d := by
+        = .noSteadyState ↔ accRelFails tol d y0 Gen.maxSteps = true := by
+  simp only [accRelFails, decide_eq_true_eq]
   rw [C15_loop_copies, C15_loop_checks_solver]
   exact rel_accumulation_none_iff d y0 tol hd hy ht (Gen.maxSteps - 1)
 
